@@ -409,6 +409,9 @@ public:
       rdb = rec;
       rec->onSet = [this](const DBRecord& r) { onSetRuleResult(r); };
       rec->shouldFail = [this](const DBRecord& r) {
+        // The rewrite that withdraws a record while the engine abandons a build is not an injection point of its
+        // own: an error there on top of the interruption that caused it is a double fault (outside the space).
+        if (r.builtAt == 0 && unsettled(specKey(r.key))) return false;
         if (++writeNo != failWriteAt) return false;
         // the record is not persisted: the persisted view of the rule stays what it was
         char k = specKey(r.key);
@@ -595,7 +598,7 @@ public:
       if (!fire)
         for (auto& i : t.issued) if ((int)i.id == d.discOn) fire = uv::parity(i.value) == d.discPar;
       if (fire) {
-        reads.push_back(uv::leafValue(d.discLeaf, ext.s[d.discLeaf]));
+        if (uv::isLeafKey(d.discLeaf)) reads.push_back(uv::leafValue(d.discLeaf, ext.s[d.discLeaf]));
         std::string dn = keyName(d.discLeaf);
         if (cfg.capi) { llb_data_t kd{dn.size(), (const uint8_t*)dn.data()}; llb_buildengine_task_discovered_dependency(t.cti, &kd); }
         else t.ti.discoveredDependency(dn);
@@ -959,6 +962,8 @@ inline void Session::checkCycleReport(BuildObs& o) {
   // dependencies (before this build) of every rule.
   std::set<std::pair<std::string, std::string>> W;
   for (auto& e : waitEdges) W.insert({keyName(e.first), keyName(e.second)});
+  // a key reported as discovered in this build has to be brought up to date on behalf of the reporting rule
+  for (auto& kv : discoveredBy) W.insert({keyName(kv.first), keyName(kv.second)});
   for (auto& kv : preBuildDeps)
     for (auto& d : kv.second) W.insert({keyName(kv.first), d.key});
   if (o.cycle) {
@@ -983,6 +988,7 @@ inline void Session::checkCycleReport(BuildObs& o) {
     for (size_t i = 0; i + 1 < c.size(); ++i) {
       char from = specKey(c[i]), to = specKey(c[i + 1]);
       if (waitEdges.count({from, to})) continue;  // requested by a task in this build
+      { auto db = discoveredBy.find(from); if (db != discoveredBy.end() && db->second == to) continue; }  // discovered in this build
       auto pd = preBuildDeps.find(from);
       if (pd == preBuildDeps.end()) continue;
       for (auto& d : pd->second) {
@@ -1113,6 +1119,12 @@ inline BuildObs Session::build(const Event& ev) {
     if (!rv.first && rv.second != value)
       violate("stale-result", std::string("build of ") + ev.key + " returned '" + value + "', a clean build computes '" + rv.second + "'");
   }
+  // A build that returns success has brought the requested key up to date: its rule reported complete / up-to-date
+  // in this build. (A dependency scan that waits on itself without any task leaves the rule scanning and returns
+  // the stored value unverified.)
+  if (o.success && (cfg.checkC07 || cfg.checkC01) && !doneThisBuild.count(ev.key))
+    violate("returned-success-without-settling-requested-key", std::string("build of ") + ev.key + " returned '" + value +
+                "' as a success although the rule of " + ev.key + " never reported complete or up-to-date in this build");
   if (o.success && cfg.checkC07 && refOf(ev.key).first)
     violate("missed-cycle", std::string("build of ") + ev.key + " succeeded with '" + value + "' although it requires a dependency cycle");
   // -- C07
